@@ -667,36 +667,50 @@ class AzureFakeCredentials:
 # registration
 # ---------------------------------------------------------------------------------------------------------------
 
+def _module(name):
+    """the module as the process sees it (real, functional fake or permissive stub created by the shim's finder)."""
+    import importlib
+    importlib.import_module(name)
+    return sys.modules[name]
+
+
 def install():
-    """register the functional fakes.  Must run before the repository modules that import boto3 / botocore /
-    azure.* are imported (worlds.fs.ranged calls it at module import)."""
+    """make the functional fakes visible to the repository modules.
+
+    The shim's fallback finder creates permissive stub modules for boto3 / botocore / azure.*; the functional classes
+    are set as attributes on those modules (the effect of shim.fake_module, but order-independent: repository code
+    looks `boto3.client`, `botocore.exceptions.ClientError` and `azure.core.exceptions.*` up at call time, and the
+    names that aioazure/fs.py binds at import (`from azure.storage.blob.aio import BlobServiceClient, ...`) are re-bound
+    in that module if it was imported before us).  Everything not listed here stays a stub, and awaiting a stub is a
+    SimulationEscape (harness error)."""
     if _INSTALLED:
         return
     shim.install()
-    already = [m for m in ('hailtop.utils.utils', 'hailtop.aiocloud.aioaws.fs', 'hailtop.aiocloud.aioazure.fs')
-               if m in sys.modules]
-    if already:
-        from simkit.core import HarnessError
-        raise HarnessError(f'worlds.fs.fakes.install() called after {already} were imported')
-    # pyspark is not installed; the fallback stub finder would otherwise make `import pyspark` succeed
-    sys.modules.setdefault('pyspark', None)
-    shim.fake_module('boto3', client=S3Client)
-    shim.fake_module('botocore')
-    shim.fake_module('botocore.config', Config=BotoConfig)
-    shim.fake_module('botocore.exceptions', ClientError=ClientError, ConnectionClosedError=BotoConnectionClosedError,
-                     IncompleteReadError=BotoIncompleteReadError)
-    # azure: let the fallback finder create the package tree (so azure.identity etc. stay importable stubs), then
-    # replace the two modules the blob FS calls into with functional fakes
-    import importlib
-    for name in ('azure.core.exceptions', 'azure.storage.blob.aio', 'azure.storage.blob', 'azure.mgmt.storage.aio',
-                 'azure.identity.aio', 'azure.core.credentials', 'azure.core.credentials_async'):
-        importlib.import_module(name)
-    shim.fake_module('azure.core.exceptions', AzureError=AzureError, HttpResponseError=HttpResponseError,
-                     ResourceNotFoundError=ResourceNotFoundError, ClientAuthenticationError=ClientAuthenticationError,
-                     ServiceResponseError=ServiceResponseError)
-    shim.fake_module('azure.storage.blob.aio', BlobClient=AzureBlobClient, BlobPrefix=BlobPrefix,
-                     BlobServiceClient=AzureBlobServiceClient, ContainerClient=AzureContainerClient,
-                     StorageStreamDownloader=AzureDownloader)
-    blob = sys.modules['azure.storage.blob']
-    blob.BlobProperties = BlobProperties
+    # pyspark is not installed; the fallback finder would otherwise make `import pyspark` succeed and
+    # aiogoogle.user_config would try to read a spark-defaults.conf below a stub path
+    for k in [k for k in sys.modules if k == 'pyspark' or k.startswith('pyspark.')]:
+        del sys.modules[k]
+    sys.modules['pyspark'] = None
+    _module('boto3').client = S3Client
+    _module('botocore.config').Config = BotoConfig
+    be = _module('botocore.exceptions')
+    be.ClientError = ClientError
+    be.ConnectionClosedError = BotoConnectionClosedError
+    be.IncompleteReadError = BotoIncompleteReadError
+    ae = _module('azure.core.exceptions')
+    for cls in (AzureError, HttpResponseError, ResourceNotFoundError, ClientAuthenticationError, ServiceResponseError):
+        setattr(ae, cls.__name__, cls)
+    aio = _module('azure.storage.blob.aio')
+    names = {'BlobClient': AzureBlobClient, 'BlobPrefix': BlobPrefix, 'BlobServiceClient': AzureBlobServiceClient,
+             'ContainerClient': AzureContainerClient, 'StorageStreamDownloader': AzureDownloader}
+    for k, v in names.items():
+        setattr(aio, k, v)
+    _module('azure.storage.blob').BlobProperties = BlobProperties
+    names['BlobProperties'] = BlobProperties
+    for modname in ('hailtop.aiocloud.aioazure.fs', 'hailtop.aiocloud.aioterra.azure.fs'):
+        m = sys.modules.get(modname)
+        if m is not None:
+            for k, v in names.items():
+                if hasattr(m, k):
+                    setattr(m, k, v)
     _INSTALLED['ok'] = True
